@@ -93,8 +93,8 @@ func (c14) Exec(r *kit.Run) {
 			created++
 		} else {
 			op.I = g.Choose(created)
-			kinds := []string{"assert", "retract", "op", "flag", "conv", "consult", "write-user", "write-cur", "out-alt", "out-user", "intern"}
-			op.Op = kinds[g.Weighted(5, 2, 5, 4, 3, 2, 4, 4, 1, 1, 2)]
+			kinds := []string{"assert", "retract", "op", "flag", "conv", "consult", "write-user", "write-cur", "out-alt", "out-user", "intern", "cur-open", "cur-step", "cur-close"}
+			op.Op = kinds[g.Weighted(5, 2, 5, 4, 3, 2, 4, 4, 1, 1, 2, 2, 5, 1)]
 			switch op.Op {
 			case "assert":
 				op.Arg = fmt.Sprintf("t%d", n)
@@ -128,6 +128,20 @@ func (c14) Exec(r *kit.Run) {
 	r.Out.ScenarioKey = string(b)
 
 	var its []*c14Interp
+	// open enumerations of fact/1, each on one interpreter, stepped between the operations of all interpreters
+	type cursor struct {
+		i        int
+		sols     *prolog.Solutions
+		snapshot []string
+		started  bool
+		pos      int
+	}
+	var cursors []*cursor
+	defer func() {
+		for _, c := range cursors {
+			c.sols.Close()
+		}
+	}()
 	changed := map[string]map[int]bool{}
 	mark := func(kind string, i int) {
 		if changed[kind] == nil {
@@ -249,6 +263,53 @@ func (c14) Exec(r *kit.Run) {
 				m.useAlt = false
 			case "intern":
 				goal = fmt.Sprintf("atom_concat(i%d_, %s, A), atom_length(A, N), copy_term(f(X, Y, X), C), length(L, 3)", op.I, op.Arg)
+			case "cur-open":
+				if len(cursors) < 3 {
+					sols, err := it.p.Query("fact(X).")
+					if err != nil {
+						kit.Bug("c14 cursor: %v", err)
+					}
+					cursors = append(cursors, &cursor{i: op.I, sols: sols})
+					r.Logf("%d interpreter %d: open enumeration %d of fact/1", n, op.I, len(cursors)-1)
+				}
+				goal = "true"
+			case "cur-step", "cur-close":
+				goal = "true"
+				if len(cursors) == 0 {
+					break
+				}
+				ci := n % len(cursors)
+				c := cursors[ci]
+				if op.Op == "cur-close" {
+					c.sols.Close()
+					cursors = append(cursors[:ci], cursors[ci+1:]...)
+					break
+				}
+				if !c.started {
+					c.started = true
+					c.snapshot = append([]string(nil), its[c.i].m.facts...) // the goal is called now: it sees the clauses of now
+				}
+				ok := c.sols.Next()
+				got := "<end>"
+				if ok {
+					v := kit.NewVars()
+					c.sols.Scan(v)
+					got = v.Get("X")
+				}
+				want := "<end>"
+				if c.pos < len(c.snapshot) {
+					want = c.snapshot[c.pos]
+					c.pos++
+				}
+				r.Logf("%d step enumeration %d (interpreter %d) -> %s", n, ci, c.i, got)
+				if got != want {
+					mark("facts", c.i)
+					c14Fail(r, changed, "facts", c14Op{J: c.i}, its, fmt.Sprintf("an open enumeration of fact/1 answered %s, its call-time snapshot %v says %s", got, c.snapshot, want))
+					return
+				}
+				if len(changed["facts"]) >= 2 {
+					r.Probe("cursor-stepped-while-another-interpreter-updated")
+				}
 			}
 			_, err := ask(it, goal)
 			r.Logf("%d interpreter %d: %s -> %s", n, op.I, goal, kit.CanonErr(err))
